@@ -954,6 +954,48 @@ pub fn exec(s: &Script, st: &mut Stats) -> Result<RunInfo, Violation> {
                     }
                     st.add("probe.sweep_budgets", (total / step) as u64 + 1);
                 }
+                6 => {
+                    // every PAIR of cut points (two suspensions at chosen places), streams of at most ~70 bytes
+                    let n = m.len();
+                    for c1 in 0..=n {
+                        for c2 in c1..=n {
+                            let ops = vec![vec![c1 as i64, -1], vec![(c2 - c1) as i64, -1], vec![(n - c2) as i64, -1]];
+                            let r = run_family(&ops, st)?;
+                            compare(base.as_ref().unwrap(), &r, format!("cuts at {} and {}", c1, c2))?;
+                            hh.u(r.hash);
+                            if r.suspensions > 0 {
+                                nontrivial = true;
+                            }
+                        }
+                    }
+                    st.add("probe.sweep_cut_pairs", ((n + 1) * (n + 2) / 2) as u64);
+                }
+                7 => {
+                    // grid: every cut point x every output budget of the first call
+                    let n = m.len();
+                    let total = base.as_ref().unwrap().out.len();
+                    let mut step = s.c_or("sweep_step", 1).max(1) as usize;
+                    // bounded work whatever the script says: at most ~6000 grid points
+                    while (n + 1) * (total / step + 1) > 6000 {
+                        step += 1 + step / 2;
+                    }
+                    for c in 0..=n {
+                        let mut b = 0;
+                        while b <= total {
+                            let ops = vec![vec![c as i64, b as i64], vec![(n - c) as i64, -1]];
+                            let r = run_family(&ops, st)?;
+                            if clauses & CL_C07 != 0 {
+                                compare(base.as_ref().unwrap(), &r, format!("cut at {} with first-call budget {}", c, b))?;
+                            }
+                            hh.u(r.hash);
+                            if r.suspensions > 0 {
+                                nontrivial = true;
+                            }
+                            b += step;
+                        }
+                    }
+                    st.add("probe.sweep_cut_budget_grid", ((n + 1) * (total / step + 1)) as u64);
+                }
                 5 => {
                     // constant per-call budget b for all calls
                     let b = s.c_or("sweep_budget", 1).max(1);
